@@ -66,6 +66,10 @@ Count(s, x) == Cardinality({i \in DOMAIN s : s[i] = x})
 BufferIsLastW ==
   \A x \in Gaps \cup {B} :
     Cardinality({i \in 0..(Size - 1) : buf[i] = x}) = Count(Recent, x)
+\* the invariant that FDInd.tla proves inductive (for runs of any length) with Apalache
+RECURSIVE SumBufTo(_)
+SumBufTo(n) == IF n = 0 THEN 0 ELSE buf[n - 1] + SumBufTo(n - 1)
+SumIsBuffer == sum = SumBufTo(Size)
 FirstSampleIsBootstrap == hist # <<>> => hist[1] = B
 IndexInRange == index \in 0..W /\ (isFull \/ index = Len(hist))
 
